@@ -811,6 +811,14 @@ func (e *Engine) removeViaCleaner(op Op) *Fail {
 		sel = -sel
 	}
 	target := cands[sel%len(cands)]
+	if op.Name != "" {
+		// a candidate addressed by its snapshot name (if the cleaner offers it)
+		for _, cnd := range cands {
+			if cnd == snapDisk(op.Name) {
+				target = cnd
+			}
+		}
+	}
 	var victim *Snap // the retained user snapshot the forbidden deletion touches
 	var victimImg *Image
 	if forced != "" {
